@@ -288,7 +288,7 @@ def mutable_default_items(acc):
             ins = {"x": list(xs)} if shape == "zip1" else {"x": list(xs[:2]), "w": list(ws)}
             mo = ["x"] if shape == "zip1" else ["x", "w"]
             mode = "zip" if shape == "zip1" else "product"
-            for entry in ("map", "node", "node-renamed"):
+            for entry in ("map", "node", "node-renamed", "node-nested-1", "node-nested-2"):
                 h = H()
                 w_ = {"mutable_default_items": True, "runner": runner}
                 try:
@@ -305,6 +305,11 @@ def mutable_default_items(acc):
                             spec["rename_in"] = {"x": "xs"}
                             ins2["xs"] = ins2.pop("x")
                         outer = T.prog([spec])
+                        if entry.startswith("node-nested"):
+                            # the mapping node sits one / two levels BELOW the graph that is run (plain graph nodes around it)
+                            for d in range(int(entry[-1])):
+                                outer["name"] = f"lvl{d}"
+                                outer = T.prog([T.gnode(f"lvl{d}", outer)])
                         g = build(outer, h)
                         rows = []
                         for _ in range(2):
@@ -317,7 +322,7 @@ def mutable_default_items(acc):
                 acc.key(("mutable-default-items", runner, shape, entry))
                 for k, row in enumerate(rows):
                     if row != exp:
-                        acc.violation({"symptom": "item-differs-from-single-run", "entry": "map" if entry == "map" else "node", "cause": "shared-default"}, w_, f"{shape} via {entry} ({runner}), pass {k + 1}: items returned {jsonable(row)}, single runs return {jsonable(exp)} (a mutable signature default is shared between items)")
+                        acc.violation({"symptom": "item-differs-from-single-run", "entry": "map" if entry == "map" else ("node-nested" if entry.startswith("node-nested") else "node"), "cause": "shared-default"}, w_, f"{shape} via {entry} ({runner}), pass {k + 1}: items returned {jsonable(row)}, single runs return {jsonable(exp)} (a mutable signature default is shared between items)")
                         break
 
 
